@@ -1,11 +1,17 @@
 use crate::engine::Ctx;
 
+pub mod c12;
+pub mod c13;
 pub mod c14;
+pub mod c15;
 
 /// Dispatch table: property id -> runner.
 pub fn run(ctx: &mut Ctx) -> bool {
     match ctx.id.as_str() {
+        "C12" => c12::run(ctx),
+        "C13" => c13::run(ctx),
         "C14" => c14::run(ctx),
+        "C15" => c15::run(ctx),
         _ => return false,
     }
     true
